@@ -67,7 +67,7 @@ func creators() []maker {
 	}
 }
 
-func runPairs(r *rng, rounds int, outdir string, skip, focus map[string]bool, watchdog time.Duration) (string, map[string]string, error) {
+func runPairs(r *rng, rounds int, outdir string, skip, focus map[string]bool, tier string) (string, map[string]string, error) {
 	dir := filepath.Join(outdir, "pairs")
 	if err := os.MkdirAll(dir, 0o755); err != nil {
 		return "", nil, err
@@ -144,7 +144,7 @@ func runPairs(r *rng, rounds int, outdir string, skip, focus map[string]bool, wa
 	recs := []record{}
 	keys := []string{}
 	status := "OK"
-	deadline := time.Now().Add(watchdog)
+	var prog progress
 	nsetup := 0
 rounds:
 	for round := 0; round < rounds; round++ {
@@ -191,16 +191,17 @@ rounds:
 		for w := 0; w < msg.n; w++ {
 			starts[w] <- msg
 		}
-		for got := 0; got < msg.n; got++ {
-			select {
-			case <-doneCh:
-			case <-time.After(time.Until(deadline)):
-				status = "HANG"
-				buf := make([]byte, 1<<22)
-				nb := runtime.Stack(buf, true)
-				os.WriteFile(filepath.Join(dir, "hang.txt"), buf[:nb], 0o644)
-				break rounds
+		roundDone := make(chan struct{})
+		go func(n int) {
+			for got := 0; got < n; got++ {
+				<-doneCh
+				prog.tick()
 			}
+			close(roundDone)
+		}(msg.n)
+		if st := awaitDone(roundDone, &prog, dir, tier); st != "OK" {
+			status = st
+			break rounds
 		}
 		for w := 0; w < msg.n; w++ {
 			rc := msg.recs[w]
